@@ -145,6 +145,14 @@ def run(chk, repo):
                     and unparse(v.test) in ("%s > 0" % pn, "0 < %s" % pn)
                 chk.decide(good, "C03.take", W("Stream.take"), "float arm: " + short(asg),
                            why="float n must be rounded when positive and 0 otherwise (-inf, nan)", node=asg)
+                # the documented rounding of the library (half-way cases away from zero) is lazy_misc.rint
+                rounders = [c for c in ast.walk(v.body) if isinstance(c, ast.Call)]
+                uses_rint = len(rounders) == 1 and canon(mod, rounders[0].func) == "lazy_misc:rint" \
+                    and [unparse(a) for a in rounders[0].args] == [pn]
+                chk.decide(uses_rint, "C03.take", W("Stream.take"), "float n rounded by lazy_misc.rint: " + unparse(v.body),
+                           why="take(n)/peek(n) round a float count to the nearest integer with exact halves away from "
+                               "zero (rint); int(round(n)) sends 0.5 -> 0 and 2.5 -> 2 (banker's rounding): fewer items "
+                               "than the model", node=asg)
 
     # ---------------------------------------------------------------- peek
     chk.rule("C03.peek", "Stream.peek never touches self._data; what it consumes is the result of self.copy(); "
@@ -388,6 +396,35 @@ def run(chk, repo):
                 or "self._data" in helper_args
             chk.decide(reads_old, "C03.inplace", W("Stream." + name), "new iterator derived from old self._data",
                        why="items would come from somewhere else", node=st)
+
+    # ------------------------------------------------------------ encapsulation
+    chk.rule("C03.encapsulation", "the raw iterator of a Stream (attribute _data of anything but a Poly) is touched only "
+                                  "inside the Stream classes of lazy_stream: everybody else goes through iter(), so that "
+                                  "a StreamTeeHub hands out its own tee copies")
+    nenc = 0
+    for m in repo.modules.values():
+        if m.name in ("lazy_poly",):
+            continue            # Poly._data is a different store (coefficients), see C07
+        for n in ast.walk(m.tree):
+            if isinstance(n, ast.Attribute) and n.attr == "_data":
+                cls_ = None
+                p_ = getattr(n, "_parent", None)
+                while p_ is not None:
+                    if isinstance(p_, ast.ClassDef):
+                        cls_ = p_.name
+                        break
+                    p_ = getattr(p_, "_parent", None)
+                inside = m.name == LS and cls_ in ("Stream", "StreamTeeHub", "ControlStream", "Streamix")
+                if m.name == "lazy_filters" and "poly" in unparse(n.value):
+                    continue
+                nenc += 1
+                if not inside:
+                    from ..core import enclosing_qual
+                    chk.bad("C03.encapsulation", "%s:%s" % (m.relpath, enclosing_qual(n)), short(getattr(n, "_parent", n)),
+                            "reaches into the raw iterator of a Stream from outside the class: on a StreamTeeHub this "
+                            "bypasses __iter__ (the tee copies), so copies are no longer independent and the hub hands "
+                            "out more than n uses", node=n)
+    chk.ok_many("C03.encapsulation", W("Stream"), "_data accesses confined to the Stream classes", max(nenc, 1))
 
     # ------------------------------------------------------ lazy_itertools.tee
     chk.rule("C03.itee", "lazy_itertools.tee returns n Streams over itertools.tee(data, n) for Stream/Iterator "
